@@ -105,6 +105,10 @@ def gen_cases(tier, seed):
             for dims in orders:
                 for how in ("dims", "exclude"):
                     if how == "dims" and not dims:
+                        # an explicitly empty selection (list / tuple / array) selects nothing, with or without one multiplicand per mode
+                        for M in (None, N):
+                            for form in ("list", "tuple", "array"):
+                                yield {"w": "dimscheck", "N": N, "how": "dims", "dims": [], "M": M, "empty_form": form}
                         continue
                     P = len(dims) if how == "dims" else N - len(dims)
                     for M in sorted({None, P, N}, key=lambda x: -1 if x is None else x):
@@ -254,6 +258,16 @@ def run_case(case, ctx):
         else:
             sel = list(range(N))
         ctx.feat(how=how, sorted_dims=(sel == sorted(sel)), full=(len(sel) == N))
+        if not sel and how == "dims":
+            kw["dims"] = {"list": [], "tuple": (), "array": np.array([], dtype=int)}[case.get("empty_form", "array")]
+            r = ctx.call("tt_dimscheck", U.tt_dimscheck, N, M, **kw)
+            if not r.ok:
+                ctx.check(False, "tt_dimscheck", "RAISE:" + type(r.exc).__name__, f"N={N} M={M} empty selection: {r.exc}", selection="empty")
+                return
+            sdims, vidx = r.value
+            ctx.check(np.size(sdims) == 0 and (vidx is None if M is None else np.size(vidx) == 0), "tt_dimscheck", "WRONG",
+                      f"N={N} M={M} dims={kw['dims']!r}: an empty selection gives modes {sdims}, multiplicand positions {vidx}", selection="empty")
+            return
         if not sel:
             return
         r = ctx.call("tt_dimscheck", U.tt_dimscheck, N, M, **kw)
